@@ -152,7 +152,7 @@ def ir_nodes(ir, acc):
 # arbitrary well-formed lists, built with sympy in the worker from a seed
 # --------------------------------------------------------------------------
 FAMILIES = [("nary", 18), ("ite_imp", 12), ("shared", 20), ("fwd_ret", 6), ("near_or2xor", 16),
-            ("near_obvious", 12), ("near_or2and", 10), ("consts", 6), ("big_reassign", 2), ("xor_twins", 8),
+            ("near_obvious", 12), ("near_or2and", 10), ("consts", 6), ("big_reassign", 3), ("xor_twins", 8),
             ("imp_shapes", 6)]
 INPUT_NAMES = ["a", "b", "c", "d", "e", "f", "g", "h", "i", "j", "k", "l"]
 MID_NAMES = ["t0", "t1", "t2", "v", "w", "tmp", "x0", "x1", "x2", "__q"]
@@ -221,7 +221,10 @@ def build_list(family, lseed):
         # a name assigned a small value, read, then re-assigned a LARGE expression that is read twice
         ins = INPUT_NAMES[:rng.randint(5, 8)]
         t, u = S(rng.choice(["t0", "v", "w"])), S("u9")
-        big = Xor(*[And(S(rng.choice(ins)), lit(ins), lit(ins)) for _ in range(rng.randint(14, 17))])
+        def term():
+            x, y, z, w = (S(v) for v in rng.sample(ins, 4))
+            return Or(And(x, Not(y)), And(z, w, Not(x)))
+        big = Xor(*[term() for _ in range(rng.choice([8, 12, 16, 24, 32]))])
         first = rng.choice([S(ins[0]), And(S(ins[0]), S(ins[1])), Not(S(ins[2]))])
         return ins, [(t, first), (u, And(t, S(ins[1]))), (t, big),
                      (S("_ret.0"), And(t, Not(S(ins[0])))), (S("_ret.1"), Xor(t, u)), (S("_ret.2"), Or(t, S(ins[3])))]
